@@ -464,6 +464,34 @@ def conjuncts(g):
     return out
 
 
+def positive_exists(gates):
+    """`any(src, λ)` sub-formulas occurring with positive polarity in a path condition (through and / or / not / ite)."""
+    out = []
+    seen = set()
+
+    def walk(t, pos):
+        k = (t.id, pos)
+        if k in seen:
+            return
+        seen.add(k)
+        if t.op == "not":
+            walk(t.a[0], not pos)
+        elif t.op in ("and", "or"):
+            for x in t.a:
+                walk(x, pos)
+        elif t.op == "ite":
+            walk(t.a[1], pos)
+            walk(t.a[2], pos)
+        elif t.op == "any" and pos and isinstance(t.a[1], tm.T) and t.a[1].op == "lam":
+            out.append(t)
+        elif t.op == "all" and not pos and isinstance(t.a[1], tm.T) and t.a[1].op == "lam":
+            x = tm.fresh("allq")
+            out.append(tm.any_(t.a[0], tm.lam([x], tm.not_(tm.apply_lam(t.a[1], [x])))))
+    for g in gates:
+        walk(g, True)
+    return out
+
+
 def every_biomass_system_declares_output(ev, r, rep, tag, where):
     """W3: on the declared-output path an error is returned as soon as ONE system burning biomass for DHW
     has no DHW output line: a universal check over the ids of those systems (an early-exit loop over the
@@ -494,12 +522,11 @@ def every_biomass_system_declares_output(ev, r, rep, tag, where):
                                     if t.op == "not" and t.a[0].op == "any" and el_ in tm.free_syms(t) and t not in cs:
                                         cs.append(t)
                             cands.append((info["iter"], el_, cs))
-                for c in conjuncts(g):
-                    # any(ids, λ id. not any(data, p(id)))   /   not all(ids, λ id. any(data, p(id)))
-                    t = c
-                    if t.op == "any" and isinstance(t.a[1], tm.T) and t.a[1].op == "lam":
-                        el = tm.fresh("idq")
-                        cands.append((t.a[0], el, [tm.apply_lam(t.a[1], [el])]))
+                # any(ids, λ id. not any(data, p(id)))   /   not all(ids, λ id. any(data, p(id))), as a conjunct of the exit
+                # condition or - when several error exits share one merged Err leaf - positively inside its disjunction
+                for t in positive_exists(g):
+                    el = tm.fresh("idq")
+                    cands.append((t.a[0], el, [tm.apply_lam(t.a[1], [el])]))
         for src, el, conds in cands:
             # (i) the ids are those of the components using this carrier for DHW
             base = src.a[0] if src.op == "iter" else src
